@@ -73,22 +73,31 @@ inline std::string sfmt(const char* fmt, ...) {
 
 // "bool babylon::SerializeTraits<std::vector<vs::Mid, std::allocator<vs::Mid> >, void>::deserialize(...)"
 //   -> "SerializeTraits<vector>::deserialize"   (stable, short name of a babylon function for violation sites)
-inline std::string short_function(const std::string& f) {
+// detail: keep one more level of the first template argument ("SerializeTraits<vector<float>>::deserialize")
+inline std::string short_function(const std::string& f, bool detail = false) {
   std::string o;
   int depth = 0;
   for (size_t i = 0; i < f.size(); ++i) {
     char c = f[i];
     if (c == '<') {
       if (depth == 0 && o.size() >= 15 && o.compare(o.size() - 15, 15, "SerializeTraits") == 0) {
+        auto clean = [](std::string head) {
+          for (const char* pre : {"::", "std::", "__cxx11::", "vs::", "vserial::", "const "})
+            if (head.rfind(pre, 0) == 0) head = head.substr(strlen(pre));
+          std::string h2;
+          for (char d : head)
+            if (d != ' ') h2.push_back(d);
+          return h2;
+        };
         size_t j = i + 1;
         while (j < f.size() && f[j] != '<' && f[j] != ',' && f[j] != '>') ++j;
-        std::string head = f.substr(i + 1, j - i - 1);
-        for (const char* pre : {"::", "std::", "__cxx11::", "vs::", "vserial::", "const "})
-          if (head.rfind(pre, 0) == 0) head = head.substr(strlen(pre));
-        std::string h2;
-        for (char d : head)
-          if (d != ' ') h2.push_back(d);
-        o += "<" + h2 + ">";
+        std::string arg = clean(f.substr(i + 1, j - i - 1));
+        if (detail && j < f.size() && f[j] == '<') {
+          size_t k = j + 1;
+          while (k < f.size() && f[k] != '<' && f[k] != ',' && f[k] != '>') ++k;
+          arg += "<" + clean(f.substr(j + 1, k - j - 1)) + ">";
+        }
+        o += "<" + arg + ">";
       }
       ++depth;
     } else if (c == '>') {
